@@ -54,6 +54,20 @@ var c02Routes = []string{
 	"{% with a=x %}{% with b=a %}{% set c = b %}{{ c }}{% endwith %}{% endwith %}",
 	"{{ f(x) }}",
 	"{% widthratio 1 2 3 %}{{ x|length }}",
+	// values that render through String() on the routes that print by themselves
+	"{% firstof nothing st %}",
+	"{% for i in l %}{% cycle st \"b\" %}{% endfor %}",
+	"{% include \"inc\" with v=st %}",
+	"{% set y = st %}{{ y }}",
+	"{% macro m(p) %}{{ p }}{% endmacro %}{{ m(st) }}",
+	"{% for i in sts %}{{ i }}{% endfor %}{{ sts|first }}{{ sts|join:\",\" }}",
+	// tainted text combined with already-safe markup (a macro result is marked safe)
+	"{% macro b() %}* {% endmacro %}{{ b() + x }}",
+	"{% macro b() %}* {% endmacro %}{{ x + b() }}",
+	"{% macro b() %}* {% endmacro %}{% set y = b() + x %}{{ y }}",
+	"{% macro b() %}* {% endmacro %}{{ b()|add:x }}",
+	"{% macro b() %}* {% endmacro %}{{ x|add:b() }}",
+	"{% macro b() %}*{% endmacro %}{{ [b(), x]|join:\"\" }}",
 }
 
 // filters that are explicit opt-outs of autoescaping (named by the property)
@@ -67,7 +81,7 @@ func c02Context(x string) Context {
 		"l":  []string{x, "k"},
 		"m":  map[string]string{"k": x},
 		"mk": map[string]int{x: 1},
-		"st": c02Stringer{x},
+		"st": c02Stringer{x}, "sts": []c02Stringer{{x}, {"k"}},
 		"f":  func(s string) string { return s + "!" },
 	}
 }
